@@ -246,3 +246,92 @@ func ruleEscapeValidated(c *Ctx, r *Report) {
 		r.undecided(rule, "floor:cont-calls", "-", desc, "no call of the continuation found in the numeric-escape functions")
 	}
 }
+
+// ---------------------------------------------------------------------------
+// C06: R-BRACKET-PRIORITY — added after seed C06e.  The writer emits a bare operator atom wherever the term
+// stands alone between brackets - `{-}`, `(-)`, `- .` - because there the reader accepts a term of the full
+// priority 1201 (6.3.1.3: an operator atom is a term of priority 1201).  The three places where the reader
+// reads "a whole term up to a closing token" therefore use one and the same maximum priority: Parser.Term (up
+// to the end token) and every Parser function that reads a term and then demands `)` or `}`.  Checked: the
+// constant passed to Parser.term in each function that compares a token kind with tokenClose or
+// tokenCloseCurly equals the constant Parser.Term passes.
+func ruleBracketPriority(c *Ctx, r *Report) {
+	const rule = "R-BRACKET-PRIORITY"
+	desc := "a term enclosed in ( ) or { } is read with the same maximum priority as a whole read-term"
+	term := c.method("Parser", "term")
+	top := c.method("Parser", "Term")
+	if term == nil || top == nil {
+		r.undecided(rule, "anchor:Parser.term/Term", "-", "locate Parser.term and Parser.Term", "not found")
+		return
+	}
+	closers := map[int64]string{}
+	for _, name := range []string{"tokenClose", "tokenCloseCurly"} {
+		k, ok := c.Engine.Members[name].(*ssa.NamedConst)
+		if !ok {
+			r.undecided(rule, "anchor:"+name, "-", "locate the token kind", "not found")
+			return
+		}
+		v, _ := constInt(k.Value)
+		closers[v] = name
+	}
+	constArg := func(fn *ssa.Function) (int64, ssa.Instruction, bool) {
+		var k int64
+		var at ssa.Instruction
+		found := false
+		eachInstr(fn, func(in ssa.Instruction) {
+			call, ok := in.(*ssa.Call)
+			if !ok || call.Call.StaticCallee() != term || len(call.Call.Args) < 2 {
+				return
+			}
+			if v, ok := constInt(call.Call.Args[1]); ok {
+				k, at, found = v, in, true
+			}
+		})
+		return k, at, found
+	}
+	topK, _, ok := constArg(top)
+	if !ok {
+		r.undecided(rule, "anchor:Parser.Term/priority", c.Pos(top.Pos()), desc, "Parser.Term does not pass a constant priority")
+		return
+	}
+	n := 0
+	for _, fn := range c.LibFuncs() {
+		if recvNamed(fn) != "Parser" || fn == top || fn.Parent() != nil {
+			continue
+		}
+		k, at, ok := constArg(fn)
+		if !ok {
+			continue
+		}
+		closer := ""
+		eachInstr(fn, func(in ssa.Instruction) {
+			if x, _, kk, ok := cmpConst(valueOf(in)); ok && isEngNamed(x.Type(), "tokenKind") && closers[kk] != "" {
+				// the closing token is demanded AFTER the term has been read
+				ab, ib := at.Block(), in.Block()
+				if (ab == ib && instrIndex(at) < instrIndex(in)) || (ab != ib && ab.Dominates(ib)) {
+					closer = closers[kk]
+				}
+			}
+		})
+		if closer == "" {
+			continue
+		}
+		n++
+		key := fmt.Sprintf("%s/term-before-%s", fname(fn), closer)
+		if k == topK {
+			r.ok(rule, key, c.at(at), desc, fmt.Sprintf("priority %d, as in Parser.Term", k), false)
+		} else {
+			r.bad(rule, key, c.at(at), desc, fmt.Sprintf("priority %d, while Parser.Term reads with %d: a bare operator atom between these brackets - which the writer emits - is refused", k, topK))
+		}
+	}
+	if n < 2 {
+		r.undecided(rule, "floor:bracket-readers", "-", desc, fmt.Sprintf("only %d functions read a term and then demand a closing bracket", n))
+	}
+}
+
+func valueOf(in ssa.Instruction) ssa.Value {
+	if v, ok := in.(ssa.Value); ok {
+		return v
+	}
+	return nil
+}
